@@ -341,6 +341,12 @@ def run(pid, tier, replay_file=None):
         coverage["states"] += ext_cov["extreme_states"] + ext_cov["extreme_tlc_states"]
         coverage["transitions"] += ext_cov["extreme_cases"]
         coverage["traces_validated_against_impl"] += ext_cov["extreme_cases"]
+    if pid == "C04" and not replay_file:
+        inst = instances_model_part(tier)
+        coverage["instances_model"] = inst
+        coverage["states"] += inst["states"]
+        coverage["transitions"] += inst["transitions"]
+        coverage["traces_validated_against_impl"] += inst["instances_compared"]
     if refs_cov:
         coverage["reference_graphs"] = refs_cov
         coverage["states"] += refs_cov["states"]
@@ -349,6 +355,69 @@ def run(pid, tier, replay_file=None):
     return rep.finish(coverage, time.time() - t0,
                       assumptions=["A1 bounded exhaustiveness", "A3 regex family",
                                    "A4 binary-exact rationals", "A7 Draft6.tla is the reference"])
+
+
+# ------------------------------------------------------------------ model instances (C04)
+def _inst_obs(state):
+    """real results of one document for the value indices the MODEL accepts: repr text read
+    back with ast (terms of Repr.tla) and the partition == induces on them"""
+    import ast
+    import checks_elem
+    if not state["usable"]:
+        return None
+    _, pyvals = df.values()
+    kind, el = drive.parse_labelled(codec.schema_to_json(state["doc"]))
+    if kind != "ok":
+        return {"parse": kind}
+    outs, terms = [], []
+    for i in state["idx"]:
+        k, r = drive.call(el, pyvals[i - 1])
+        if k != "ok":
+            return {"parse": "ok", "rejected": i}
+        outs.append(r)
+        try:
+            terms.append(checks_elem._norm_term(checks_elem._term(ast.parse(repr(r), mode="eval").body)))
+        except Exception as exc:  # noqa
+            return {"parse": "ok", "err": type(exc).__name__ + ": " + str(exc)[:100], "text": repr(r)[:200]}
+    eqc = []
+    for i, a in enumerate(outs):
+        j = next(j for j in range(i + 1) if (outs[j] == a) is True)
+        eqc.append(j + 1)
+    sym = all((outs[i] == outs[j]) == (outs[j] == outs[i]) for i in range(len(outs)) for j in range(i))
+    return {"parse": "ok", "terms": terms, "eqc": eqc, "symmetric": sym,
+            "texts": [repr(r)[:120] for r in outs[:3]]}
+
+
+def instances_model_part(tier):
+    """MC_Inst: the model's instance representations and == partition for every document with an
+    object class in scope, compared with the real instances (Instances.tla bound to object.py)."""
+    import checks_elem
+    lines, meta = df._cached_tlc("inst-bfs", df._cfg(df.TIERS[tier]["bfs"], False), module="MC_Inst")
+    seeds, smeta = df._cached_tlc("inst-seed", df._cfg(df.TIERS[tier]["seed"], False, "SeedSpec",
+                                                        df.TIERS[tier]["seed_levels"]), module="MC_Inst")
+    states = [s for s in lines + seeds if s["usable"]]
+    obs = drive.pmap(_inst_obs, states, chunksize=32)
+    out = dict(states=meta["distinct"] + smeta["distinct"], transitions=meta["states"] + smeta["states"],
+               documents_with_classes=len(states), instances_compared=0, repr_drift=0, eq_drift=0,
+               other_drift=0, model_eq_not_equivalence=sum(1 for s in states if s["mEq"]))
+    for st, ob in zip(states, obs):
+        if not ob or ob.get("parse") != "ok" or "rejected" in ob or "err" in ob:
+            out["other_drift"] += 1
+            out.setdefault("first_drift", dict(schema=codec.schema_to_json(st["doc"]), real=ob))
+            continue
+        out["instances_compared"] += len(ob["terms"])
+        want = [checks_elem._norm_term(t) for t in st["reprs"]]
+        if want != ob["terms"]:
+            out["repr_drift"] += 1
+            k = next(i for i in range(len(want)) if want[i] != ob["terms"][i])
+            out.setdefault("first_drift", dict(schema=codec.schema_to_json(st["doc"]),
+                                               model=json.dumps(want[k], default=str)[:300],
+                                               real=json.dumps(ob["terms"][k], default=str)[:300]))
+        if st["eqc"] != ob["eqc"] or not ob["symmetric"]:
+            out["eq_drift"] += 1
+            out.setdefault("first_eq_drift", dict(schema=codec.schema_to_json(st["doc"]), model=st["eqc"],
+                                                  real=ob["eqc"]))
+    return out
 
 
 def _rand_obs(doc):
